@@ -18,3 +18,12 @@ pub proof fn lemma_parts_push(l: Seq<Part>, p: Part)
         if i + 1 < l.len() { assert(m[i + 1] == l[i + 1]); } else { assert(m[i + 1] == p); assert(l[i] == l.last()); }
     }
 }
+
+// the parts UrlPath::extract collects for its result: each has a name and a value
+pub open spec fn rparts_ok(l: Seq<Part>) -> bool { forall|i: int| 0 <= i < l.len() ==> (#[trigger] l[i]).name.is_some() && l[i].value.is_some() }
+pub proof fn lemma_rparts_push(l: Seq<Part>, p: Part)
+    requires rparts_ok(l), p.name.is_some(), p.value.is_some(),
+    ensures rparts_ok(l.push(p)),
+{
+    assert forall|i: int| 0 <= i < l.push(p).len() implies (#[trigger] l.push(p)[i]).name.is_some() && l.push(p)[i].value.is_some() by { if i < l.len() { assert(l.push(p)[i] == l[i]); } }
+}
